@@ -1,6 +1,7 @@
 /-
 C14 — `parse_page_selectors`: which exceptions of the third-party `tinycss2.nth.parse_nth` can leave it
-(after repair 9ef10c8, which wraps the call in `try … except (AttributeError, ValueError): return None`).
+(after repairs 9ef10c8 and 54b52a1, which wrap the call in
+`try … except (AttributeError, StopIteration, ValueError): return None`).
 -/
 import WpModel.Model.PageSelectors
 import WpModel.Props.C14  -- (also: the auxiliary match lemmas of `parseInner` generated there must not be generated twice)
@@ -8,7 +9,7 @@ import WpModel.Props.C14  -- (also: the auxiliary match lemmas of `parseInner` g
 namespace Wp.C14
 open Wp Wp.PageSel
 
-/-- `try: parse_nth(nth) except (AttributeError, ValueError): return None`: the only exceptions that pass are
+/-- `try: parse_nth(nth) except (AttributeError, StopIteration, ValueError): return None`: the only exceptions that pass are
 of a class outside the caught ones. -/
 theorem nthValues_raises_only_uncaught (e : Option NthRes) (cls : String) (h : nthValues e = .raised cls) :
     nthCaught cls = false := by
@@ -77,18 +78,20 @@ theorem parseOuter_raises_only_uncaught (fuel : Nat) (toks : List Tok) (acc : Li
 
 /-- **`parse_page_selectors` lets through only exceptions that it does not catch** (full strength, no
 hypothesis on the oracle): whatever `tinycss2.nth.parse_nth` does on the slices of the `:nth()` arguments, an
-exception leaving `parse_page_selectors` has a class other than `AttributeError` and `ValueError`.  Before repair
-9ef10c8 the `AttributeError` of a trailing sign (`2n+`) passed (fixed finding `page-nth-trailing-sign-crash`).
-That *no* exception passes is still false: `Witness.C14.nth_lone_plus_exception_propagates`. -/
+exception leaving `parse_page_selectors` has a class other than `AttributeError`, `StopIteration` and `ValueError`.
+Before repair 9ef10c8 the `AttributeError` of a trailing sign (`2n+`) passed (fixed finding
+`page-nth-trailing-sign-crash`), before 54b52a1 the `StopIteration` of a lone `+` (fixed finding
+`page-nth-lone-plus-crash`).  There is no catch-all: `Witness.C14.nth_other_exception_propagates`. -/
 theorem parse_raises_only_uncaught (prelude : List Tok) (cls : String)
-    (h : parsePageSelectors prelude = .raised cls) : cls ≠ "AttributeError" ∧ cls ≠ "ValueError" := by
+    (h : parsePageSelectors prelude = .raised cls) :
+    cls ≠ "AttributeError" ∧ cls ≠ "StopIteration" ∧ cls ≠ "ValueError" := by
   have hc : nthCaught cls = false := by
     unfold parsePageSelectors at h
     simp only at h
     split at h
     · cases h
     · exact parseOuter_raises_only_uncaught _ _ _ _ h
-  constructor <;> (intro e; subst e; simp [nthCaught] at hc)
+  refine ⟨?_, ?_, ?_⟩ <;> (intro e; subst e; simp [nthCaught] at hc)
 
 /-- Every entry of every oracle table that is an exception is a caught one (what the repair assumed). -/
 def OracleRaisesOnlyCaught (prelude : List Tok) : Prop :=
@@ -155,14 +158,15 @@ theorem parseInner_raised_mem (toks : List Tok) (types : Sel) (cls : String)
     exact ⟨n, a, t, by simp [hm], ht⟩
 
 /-- **If the oracle raises only exceptions that the repair catches, `parse_page_selectors` never raises**
-(the statement the repair 9ef10c8 establishes; its hypothesis is false of tinycss2 1.5 for a lone `+`,
-`Witness.C14.nth_lone_plus_exception_propagates`). -/
+(what the repairs 9ef10c8 + 54b52a1 establish: the three classes are all that tinycss2 1.5 is known to raise — the
+oracle tables of every generated prelude satisfy the hypothesis, checked in every run by the section
+`parse-page-selectors`, where an uncaught class would show as `err:<Class>`). -/
 theorem parse_total_partial (prelude : List Tok) (ho : OracleRaisesOnlyCaught prelude) (cls : String) :
     parsePageSelectors prelude ≠ .raised cls := by
   intro h
   have hun : nthCaught cls = false := by
     have := parse_raises_only_uncaught prelude cls h
-    simp only [nthCaught, Bool.or_eq_false_iff, beq_eq_false_iff_ne]; exact this
+    simp only [nthCaught, Bool.or_eq_false_iff, beq_eq_false_iff_ne]; exact ⟨⟨this.1, this.2.1⟩, this.2.2⟩
   -- the exception comes from some table of the prelude
   have hmem : ∃ name args table, Tok.func name args table ∈ prelude ∧ NthRes.raised cls ∈ table := by
     unfold parsePageSelectors at h
